@@ -22,12 +22,18 @@
 #include <sys/mman.h>
 #include <errno.h>
 
+/* every piece of harness state is per thread when the multi-threaded harness (sluh_mt.c) includes this file */
+#ifdef SLUH_MT
+# define TLS __thread
+#else
+# define TLS
+#endif
 /* ------------------------------------------------------------------ tuning seam */
-static int g_tune[8] = {0, 20, 10, 200, 200, 100, 30, 10};
+static TLS int g_tune[8] = {0, 20, 10, 200, 200, 100, 30, 10};
 int sp_ienv(int ispec) { return (ispec >= 1 && ispec <= 7) ? g_tune[ispec] : -1; }
 
 /* ------------------------------------------------------------------ JSON helpers */
-static FILE *OUT;
+static TLS FILE *OUT;
 static void jnum(double v)
 {
     /* exact small dyadic: [num, ld] (value = num * 2^-ld);  any other double: [sign, hi, mid, lo, ld] with
@@ -98,8 +104,8 @@ typedef struct {
     long ledger_mark;
 } ctx_t;
 #define NCTX 4
-static ctx_t CT[NCTX]; static ctx_t *cx = &CT[0];
-static char g_id[128];
+static TLS ctx_t CT[NCTX]; static TLS ctx_t *cx;
+static TLS char g_id[128];
 
 static void opts_json(const superlu_options_t *o)
 {
@@ -199,8 +205,8 @@ static void ledger_json(const ctx_t *c)
 }
 
 /* ------------------------------------------------------------------ script reader */
-static char *LINE; static size_t LCAP;
-static char **SC; static int SCN, SCI;        /* lines of the current scenario */
+static TLS char *LINE; static TLS size_t LCAP;
+static TLS char **SC; static TLS int SCN, SCI;        /* lines of the current scenario */
 static char *nextline(void) { return SCI < SCN ? SC[SCI++] : NULL; }
 static double rdnum(char **s) { char *e; double v = strtod(*s, &e); if (e == *s) { fprintf(stderr, "sluh: bad number at '%s' (%s)\n", *s, g_id); _exit(98); } *s = e; return v; }
 static long rdint(char **s) { char *e; long v = strtol(*s, &e, 10); if (e == *s) { fprintf(stderr, "sluh: bad int at '%s' (%s)\n", *s, g_id); _exit(98); } *s = e; return v; }
@@ -555,7 +561,11 @@ static void cmd_destroy(char *s)
 
 static void run_scenario(void)
 {
-    reset_ctx(); slu_v_reset(); slu_v_set_out(OUT); slu_v_set_events(0);
+    reset_ctx();
+#ifndef SLUH_MT
+    slu_v_reset();          /* the ledger is process-wide: not reset while other threads are running */
+#endif
+    slu_v_set_out(OUT); slu_v_set_events(0);
     char *ln;
     while ((ln = nextline())) {
         char cmd[32]; int k = 0;
@@ -566,6 +576,7 @@ static void run_scenario(void)
         else if (!strcmp(cmd, "mat")) cmd_mat(rest);
         else if (!strcmp(cmd, "newvals")) cmd_newvals(rest);
         else if (!strcmp(cmd, "mutate")) cmd_mutate(rest);
+        else if (!strcmp(cmd, "mark")) { char tag[64] = ""; sscanf(rest, "%63s", tag); fprintf(OUT, "{\"e\":\"Mark\",\"id\":\"%s\",\"tag\":\"%s\"}\n", g_id, tag); }
         else if (!strcmp(cmd, "requireok")) { if (cx->info != 0) { fprintf(OUT, "{\"e\":\"Skip\",\"id\":\"%s\",\"why\":\"precondition of the next call not met (info=%lld)\"}\n", g_id, (long long)cx->info); fflush(OUT); return; } }
         else if (!strcmp(cmd, "rhs")) cmd_rhs(rest);
         else if (!strcmp(cmd, "opt")) cmd_opt(rest);
@@ -593,6 +604,7 @@ static void run_scenario(void)
     }
 }
 
+#ifndef SLUH_MT
 int main(int argc, char **argv)
 {
     int nofork = 0, timeout = 20; int ai = 1;
@@ -637,3 +649,4 @@ int main(int argc, char **argv)
     fclose(OUT); fclose(in);
     return 0;
 }
+#endif /* !SLUH_MT */
